@@ -94,13 +94,17 @@ CACHES = ["cold", "sigma", "full"]
 def measure_params(draw, kind, R, D, kappa=100.0):
     """Defining inputs of a measure/density of the given kind."""
     diag = kind.startswith("diag")
+    # magnitude regimes: mostly O(1) payloads, sometimes large / tiny information vectors, means and log-constants,
+    # and an overall scale of the matrix (the properties quantify over arbitrary values)
+    vs = draw(st.sampled_from([1.0, 1.0, 1.0, 1.0, 5.0, 0.01]))
+    ms = draw(st.sampled_from([1.0, 1.0, 1.0, 1.0, 30.0, 0.03]))
     if kind in ("measure", "diag_measure"):
         return {
-            "Lambda": draw(spd(R, D, kappa=kappa, diag=diag)),
-            "nu": draw(arr((R, D))),
-            "ln_beta": draw(arr((R,))),
+            "Lambda": draw(spd(R, D, kappa=kappa, diag=diag)) * ms,
+            "nu": draw(arr((R, D))) * vs * (ms ** 0.5),
+            "ln_beta": draw(arr((R,))) * draw(st.sampled_from([1.0, 1.0, 1.0, 25.0])),
         }
-    return {"Sigma": draw(spd(R, D, kappa=kappa, diag=diag)), "mu": draw(arr((R, D)))}
+    return {"Sigma": draw(spd(R, D, kappa=kappa, diag=diag)) * ms, "mu": draw(arr((R, D))) * vs * (ms ** 0.5)}
 
 
 @st.composite
